@@ -2,11 +2,11 @@ SPECIFICATION Spec
 CONSTANTS Setters = {1,2}
   Waiters = {1,2}
   ReadyBeforeLock = FALSE
-  Recycle = FALSE
-  UnlockBeforeBcast = FALSE
+  Recycle = TRUE
+  UnlockBeforeBcast = TRUE
 INVARIANT OneWinner
 INVARIANT ValueOfWinner
 INVARIANT RecyclerSeesNewSet
 INVARIANT ResetLegal
-PROPERTY AllReturn
+PROPERTY SettersReturn
 CHECK_DEADLOCK FALSE
